@@ -302,6 +302,229 @@ def HtlcOp.method (H : HashFn) : HtlcOp → Method Htlc
   | .deny => setProxyUnlock false
   | .allow => setProxyUnlock true
 
+/-! ### common.go: QSR deposits (pillar and sentinel contracts each keep their own) -/
+
+abbrev Deposits := List (Addr × Nat)       -- prefix 130: key depositor
+
+/-- definition.GetQsrDeposit: absent = 0 -/
+def depositOf (d : Deposits) (a : Addr) : Nat := (lookup a d).getD 0
+
+/-- DepositQsrMethod.ReceiveBlock -/
+def depositQsr (d : Deposits) (c : Ctx) : Option Deposits :=
+  if c.token ≠ qsrTok ∨ c.amount = 0 then none
+  else some (put c.sender (depositOf d c.sender + c.amount) d)
+
+/-- WithdrawQsrMethod.ReceiveBlock: pays the whole deposit back to the depositor and deletes it -/
+def withdrawQsr (d : Deposits) (c : Ctx) : Option (Deposits × List Payout) :=
+  if c.amount ≠ 0 then none
+  else if depositOf d c.sender = 0 then none
+  else some (erase c.sender d, [⟨c.sender, qsrTok, depositOf d c.sender, false⟩])
+
+/-- checkAndConsumeQsr -/
+def consumeQsr (d : Deposits) (owner : Addr) (required : Nat) : Option Deposits :=
+  if depositOf d owner < required then none
+  else if depositOf d owner - required = 0 then some (erase owner d)
+  else some (put owner (depositOf d owner - required) d)
+
+def depositsTotal (d : Deposits) : Nat := total id d
+
+/-! ### pillars.go (rewards, legacy registration and votes excluded) -/
+
+structure PillarE where
+  stakeAddr : Addr
+  amount : Nat
+  regTime : Int
+  revokeTime : Int
+  producer : Addr
+  reward : Addr
+  ptype : Nat
+  pctBlock : Nat
+  pctDelegate : Nat
+  deriving DecidableEq, Repr
+
+structure Pillar where
+  pillars : List (Hash × PillarE) := []      -- prefix 1: key hash(name); names are opaque identifiers
+  producing : List (Addr × Hash) := []       -- prefix 2: producing address → pillar name
+  delegations : List (Addr × Hash) := []     -- prefix 4: backer → pillar name
+  deposits : Deposits := []
+  deriving Repr
+
+/-- PillarGetRevokeStatus / GetSentinelRevokeStatus: Go's `%` truncates toward zero -/
+def revocable (lock window reg now : Int) : Bool := !decide ((now - reg).tmod (lock + window) < lock)
+
+/-- number of active pillars of the normal type (GetPillarsList(onlyActive, NormalPillarType)) -/
+def activeNormal : List (Hash × PillarE) → Nat
+  | [] => 0
+  | (_, e) :: r => (if e.revokeTime = 0 ∧ e.ptype = ZV.Gen.NormalPillarType then 1 else 0) + activeNormal r
+
+/-- GetQsrCostForNextPillar -/
+def pillarQsrCost (P : Params) (s : Pillar) : Nat := P.pillarQsrBase + P.pillarQsrIncrease * activeNormal s.pillars
+
+/-- checkAvailableProducingAddress -/
+def producerAvailable (s : Pillar) (producer : Addr) (name : Hash) : Bool :=
+  match lookup producer s.producing with
+  | none => true
+  | some n => n == name
+
+/-- RegisterMethod.ReceiveBlock. `nameOk` = checkPillarNameStatic(name) (a regular expression; oracle). -/
+def registerPillar (P : Params) (name : Hash) (producer reward : Addr) (pctBlock pctDelegate : Nat) (nameOk : Bool) : Method Pillar := fun s c =>
+  if !nameOk then none
+  else if pctBlock > 100 ∨ pctDelegate > 100 then none
+  else if c.token ≠ znnTok ∨ c.amount ≠ P.pillarStakeAmount then none
+  else
+    let required := pillarQsrCost P s
+    if (lookup name s.pillars).isSome then none
+    else if !producerAvailable s producer name then none
+    else match consumeQsr s.deposits c.sender required with
+      | none => none
+      | some d' =>
+        some ({ s with pillars := put name ⟨c.sender, P.pillarStakeAmount, c.now, 0, producer, reward, ZV.Gen.NormalPillarType, pctBlock, pctDelegate⟩ s.pillars,
+                       producing := put producer name s.producing,
+                       deposits := d' },
+              [⟨tokenContract, qsrTok, required, true⟩])
+
+/-- RevokeMethod.ReceiveBlock: pays the constant PillarStakeAmount (not the recorded amount) -/
+def revokePillar (P : Params) (name : Hash) (nameOk : Bool) : Method Pillar := fun s c =>
+  if !nameOk then none
+  else if c.amount ≠ 0 then none
+  else match lookup name s.pillars with
+    | none => none
+    | some p =>
+      if p.revokeTime ≠ 0 then none
+      else if p.stakeAddr ≠ c.sender then none
+      else if !revocable P.pillarLock P.pillarRevoke p.regTime c.now then none
+      else some ({ s with pillars := put name { p with revokeTime := c.now, amount := 0 } s.pillars },
+                 [⟨p.stakeAddr, znnTok, P.pillarStakeAmount, false⟩])
+
+/-- UpdatePillarMethod.ReceiveBlock -/
+def updatePillar (name : Hash) (producer reward : Addr) (pctBlock pctDelegate : Nat) (nameOk : Bool) : Method Pillar := fun s c =>
+  if !nameOk then none
+  else if pctBlock > 100 ∨ pctDelegate > 100 then none
+  else if c.amount ≠ 0 then none
+  else match lookup name s.pillars with
+    | none => none
+    | some p =>
+      if p.stakeAddr ≠ c.sender then none
+      else if p.revokeTime ≠ 0 then none
+      else if producer ≠ p.producer ∧ !producerAvailable s producer name then none
+      else
+        some ({ s with pillars := put name { p with producer := producer, reward := reward, pctBlock := pctBlock, pctDelegate := pctDelegate } s.pillars,
+                       producing := if producer ≠ p.producer then put producer name s.producing else s.producing }, [])
+
+/-- DelegateMethod.ReceiveBlock -/
+def delegate (name : Hash) (nameOk : Bool) : Method Pillar := fun s c =>
+  if !nameOk then none
+  else if c.amount ≠ 0 then none
+  else match lookup name s.pillars with
+    | none => none
+    | some p =>
+      if p.revokeTime ≠ 0 then none
+      else some ({ s with delegations := put c.sender name s.delegations }, [])
+
+/-- UndelegateMethod.ReceiveBlock -/
+def undelegate : Method Pillar := fun s c =>
+  if c.amount ≠ 0 then none
+  else match lookup c.sender s.delegations with
+    | none => none
+    | some _ => some ({ s with delegations := erase c.sender s.delegations }, [])
+
+def pillarDeposit : Method Pillar := fun s c =>
+  match depositQsr s.deposits c with
+  | none => none
+  | some d => some ({ s with deposits := d }, [])
+
+def pillarWithdraw : Method Pillar := fun s c =>
+  match withdrawQsr s.deposits c with
+  | none => none
+  | some (d, ps) => some ({ s with deposits := d }, ps)
+
+/-- what the pillar contract owes: the collateral of its pillars in ZNN, the deposits in QSR -/
+def pillarOwed (s : Pillar) (tok : Tok) : Nat :=
+  if tok = znnTok then total (·.amount) s.pillars
+  else if tok = qsrTok then depositsTotal s.deposits
+  else 0
+
+inductive PillarOp where
+  | register (name : Hash) (producer reward : Addr) (pctBlock pctDelegate : Nat) (nameOk : Bool)
+  | revoke (name : Hash) (nameOk : Bool)
+  | update (name : Hash) (producer reward : Addr) (pctBlock pctDelegate : Nat) (nameOk : Bool)
+  | delegate (name : Hash) (nameOk : Bool)
+  | undelegate
+  | deposit
+  | withdraw
+  deriving Repr
+
+def PillarOp.method (P : Params) : PillarOp → Method Pillar
+  | .register n p r b d ok => registerPillar P n p r b d ok
+  | .revoke n ok => revokePillar P n ok
+  | .update n p r b d ok => updatePillar n p r b d ok
+  | .delegate n ok => ZV.Contracts.delegate n ok
+  | .undelegate => ZV.Contracts.undelegate
+  | .deposit => pillarDeposit
+  | .withdraw => pillarWithdraw
+
+/-! ### sentinel.go (rewards excluded) -/
+
+structure SentinelE where
+  regTime : Int
+  revokeTime : Int
+  znn : Nat
+  qsr : Nat
+  deriving DecidableEq, Repr
+
+structure Sentinel where
+  entries : List (Addr × SentinelE) := []    -- prefix 1: key owner
+  deposits : Deposits := []
+  deriving Repr
+
+/-- RegisterSentinelMethod.ReceiveBlock -/
+def registerSentinel (P : Params) : Method Sentinel := fun s c =>
+  if c.token ≠ znnTok ∨ c.amount ≠ P.sentinelZnn then none
+  else if (lookup c.sender s.entries).isSome then none
+  else match consumeQsr s.deposits c.sender P.sentinelQsr with
+    | none => none
+    | some d' => some ({ entries := put c.sender ⟨c.now, 0, P.sentinelZnn, P.sentinelQsr⟩ s.entries, deposits := d' }, [])
+
+/-- RevokeSentinelMethod.ReceiveBlock -/
+def revokeSentinel (P : Params) : Method Sentinel := fun s c =>
+  if c.amount ≠ 0 then none
+  else match lookup c.sender s.entries with
+    | none => none
+    | some e =>
+      if e.revokeTime ≠ 0 then none
+      else if !revocable P.sentinelLock P.sentinelRevoke e.regTime c.now then none
+      else some ({ s with entries := put c.sender { e with revokeTime := c.now, znn := 0, qsr := 0 } s.entries },
+                 [⟨c.sender, znnTok, e.znn, false⟩, ⟨c.sender, qsrTok, e.qsr, false⟩])
+
+def sentinelDeposit : Method Sentinel := fun s c =>
+  match depositQsr s.deposits c with
+  | none => none
+  | some d => some ({ s with deposits := d }, [])
+
+def sentinelWithdraw : Method Sentinel := fun s c =>
+  match withdrawQsr s.deposits c with
+  | none => none
+  | some (d, ps) => some ({ s with deposits := d }, ps)
+
+/-- what the sentinel contract owes: ZNN collateral; QSR collateral + QSR deposits -/
+def sentinelOwed (s : Sentinel) (tok : Tok) : Nat :=
+  if tok = znnTok then total (·.znn) s.entries
+  else if tok = qsrTok then total (·.qsr) s.entries + depositsTotal s.deposits
+  else 0
+
+inductive SentinelOp where
+  | register
+  | revoke
+  | deposit
+  | withdraw
+  deriving Repr
+
+def SentinelOp.method (P : Params) : SentinelOp → Method Sentinel
+  | .register => registerSentinel P
+  | .revoke => revokeSentinel P
+  | .deposit => sentinelDeposit
+  | .withdraw => sentinelWithdraw
+
 /-! ### vm.go: generateEmbeddedReceive / rollbackEmbedded -/
 
 abbrev Bal := List (Tok × Nat)
